@@ -34,6 +34,9 @@ MALFORMED = [b'bytes=5_0-60', b'bytes=+1-5', b'bytes=1-+5', b'=1-2', b'bytes=1-5
 
 
 def body(n, rng=None):
+	if n % 4 == 0:
+		# text in CRLF-terminated lines of 7 octets: slices that end exactly at a line end, or between CR and LF
+		return b''.join(b'l%03d:\r\n' % (i % 1000) for i in range(n // 7 + 1))[:n]
 	return bytes((i * 7 + 3) % 251 for i in range(n))
 
 
